@@ -40,12 +40,13 @@ namespace Compressor
     (threshold 0.0, ratio 1.0, attack 10 ms, release 100 ms, makeup 0 dB, mix WET) -/
 def new (threshold ratio : Value α α) (attack release : Value α Nat) (makeup mix : Value α α) :
     Compressor α :=
-  { threshold := Parameter.new threshold (0.0 : α)
-    ratio := Parameter.new ratio (1.0 : α)
-    attackDuration := Parameter.new attack 10000000
-    releaseDuration := Parameter.new release 100000000
-    makeupGain := Parameter.new makeup (0.0 : α)
-    mix := Parameter.new mix (1.0 : α)
+  gen_body%
+  { threshold := Parameter.new threshold Gen.compressorDefaultThreshold
+    ratio := Parameter.new ratio Gen.compressorDefaultRatio
+    attackDuration := Parameter.new attack Gen.compressorDefaultAttackNs
+    releaseDuration := Parameter.new release Gen.compressorDefaultReleaseNs
+    makeupGain := Parameter.new makeup Gen.compressorDefaultMakeupGain
+    mix := Parameter.new mix Gen.compressorDefaultMix
     envL := (0.0 : α), envR := (0.0 : α)
     cmdThreshold := none, cmdRatio := none, cmdAttack := none, cmdRelease := none
     cmdMakeup := none, cmdMix := none }
